@@ -14,12 +14,14 @@ package main
 
 import (
 	"bufio"
+	"encoding/hex"
 	"fmt"
 	"os"
 	"strconv"
 	"strings"
 	"unsafe"
 
+	"github.com/arnodel/golua/lib"
 	rt "github.com/arnodel/golua/runtime"
 )
 
@@ -270,6 +272,39 @@ func contEngine(in *bufio.Scanner, out *bufio.Writer) {
 	}
 }
 
+// regsize: <id> <pool size, hex> <hex Lua source>: runs the chunk on rt.New(nil, rt.WithRegPoolSize(size)) — the documented
+// embedding option — and reports ok / error / gopanic:<message>
+func regsizeEngine(in *bufio.Scanner, out *bufio.Writer) {
+	for in.Scan() {
+		f := strings.Fields(in.Text())
+		if len(f) < 3 {
+			continue
+		}
+		src, _ := hex.DecodeString(f[2])
+		status := func() (st string) {
+			defer func() {
+				if x := recover(); x != nil {
+					st = "gopanic:" + hex.EncodeToString([]byte(fmt.Sprint(x)))
+				}
+			}()
+			r := rt.New(nil, rt.WithRegPoolSize(uint(hx(f[1]))))
+			cleanup := lib.LoadAll(r)
+			defer cleanup()
+			t := r.MainThread()
+			clos, err := t.LoadFromSourceOrCode("chunk", src, "t", rt.TableValue(r.GlobalEnv()), false)
+			if err != nil {
+				return "compile_error"
+			}
+			if err := rt.Call(t, rt.FunctionValue(clos), nil, rt.NewTerminationWith(nil, 0, true)); err != nil {
+				return "error"
+			}
+			return "ok"
+		}()
+		fmt.Fprintf(out, "%s %s\n", f[0], status)
+		out.Flush()
+	}
+}
+
 func main() {
 	if len(os.Args) < 2 {
 		fmt.Fprintln(os.Stderr, "usage: gvh-pool reg|cont|sizes")
@@ -284,6 +319,8 @@ func main() {
 		regEngine(in, out)
 	case "cont":
 		contEngine(in, out)
+	case "regsize":
+		regsizeEngine(in, out)
 	case "sizes":
 		fmt.Fprintf(out, "%d %d\n", rt.VerifLuaContPoolSize(), rt.VerifGoContPoolSize())
 	default:
